@@ -357,6 +357,12 @@ def run(ctx: Ctx) -> None:
                        "both passes must analyse the functions that python will run, not those of an earlier evaluation")
     global_cache_rule(ctx, "C11.R8")
 
+    # ---- R9: both passes resolve every name of the module ----
+    from .c01 import dismiss_rule
+    rep.rule("C11.R9", "as C01.R6: the resolver dismisses a name only after it was not found in the module's namespace (a module-level `eval` imported "
+                       "from dds, or user functions named like builtins, stay visible to both passes)")
+    dismiss_rule(ctx, "C11.R9")
+
     # ---- R7: both detections rely on the same local-variable classification ----
     from . import visitors
     rep.rule("C11.R7", "names bound by import / def / class are not classified as local variables (calls through them stay visible to both passes); visitors descend everywhere")
